@@ -81,7 +81,7 @@ def run(ctx):
     n = 300 if ctx.tier == "quick" else 5000
     done = 0
     while done < n and ctx.time_left() > 5:
-        batch = gen_valid_graphs(ctx, min(150, n - done))
+        batch = gen_valid_graphs(ctx, min(150, n - done), corpus=True)
         if done == 0:
             import demes
             batch = batch + [(d, demes.Graph.fromdict(d), None) for d in short_epoch_docs()]
